@@ -118,14 +118,25 @@ func cmdDet(fs *flag.FlagSet) {
 			w0 := worldByName(wn)
 			wt := newWatch()
 			rng := rand.New(rand.NewSource(*seed + int64(wi)))
-			// four trace files per world (validated in parallel)
-			tws := map[int]*traceWriter{}
+			// the memo rule is per query key: the events of one world are spread over several trace files by key (validated in
+			// parallel; one long trace with a growing memo is quadratic for TLC)
+			const nShards = 8
+			tws := make([]*traceWriter, nShards)
+			for i := range tws {
+				tws[i] = newTraceWriter(fmt.Sprintf("%s.%03d.ndjson", *out, wi*nShards+i))
+			}
 			defer func() {
 				for _, t := range tws {
 					t.Close()
 				}
 			}()
-			var tw *traceWriter
+			shardOf := func(key string) *traceWriter {
+				h := 0
+				for _, c := range key {
+					h = (h*31 + int(c)) & 0x7fffffff
+				}
+				return tws[h%nShards]
+			}
 			// buffer states: the documents as they are, then sampled half-typed states of every native document
 			type dstate struct {
 				w      *World
@@ -158,14 +169,12 @@ func cmdDet(fs *flag.FlagSet) {
 			}
 			for si, st := range states {
 				w := st.w
-				if t, ok := tws[si%4]; ok {
-					tw = t
-					tw.Emit(Event{"ev": "Reset"})
-				} else {
-					tw = newTraceWriter(fmt.Sprintf("%s.%03d.ndjson", *out, wi*4+si%4))
-					tws[si%4] = tw
+				for _, tw := range tws {
+					if si > 0 {
+						tw.Emit(Event{"ev": "Reset"})
+					}
+					tw.Emit(Event{"ev": "Init", "p": "p1", "world": wn, "state": st.note, "files": sortedKeys(w.Docs)})
 				}
-				tw.Emit(Event{"ev": "Init", "p": "p1", "world": wn, "state": st.note, "files": sortedKeys(w.Docs)})
 				focus := map[int]bool{1: true}
 				keys := []Q{}
 				for _, f := range sortedKeys(w.Docs) {
@@ -180,7 +189,7 @@ func cmdDet(fs *flag.FlagSet) {
 				env := newEnv(w, "p1")
 				env.Recollect(wt, "p1")
 				emit := func(regime string, q Q, o Outcome) {
-					tw.Emit(Event{"ev": "Det", "key": qKey(q), "dg": obsDigest(o), "regime": regime})
+					shardOf(qKey(q)).Emit(Event{"ev": "Det", "key": qKey(q), "dg": obsDigest(o), "regime": regime})
 					total[wi]++
 				}
 				for r := 0; r < st.rounds; r++ {
@@ -215,7 +224,7 @@ func cmdDet(fs *flag.FlagSet) {
 	for _, t := range total {
 		n += t
 	}
-	fmt.Printf("{\"events\":%d,\"files\":%d}\n", n, len(names)*4)
+	fmt.Printf("{\"events\":%d,\"files\":%d}\n", n, len(names)*8)
 }
 
 // ---------------------------------------------------------------- frame (C04)
